@@ -121,7 +121,7 @@ theorem plain_rejected (rx : RxState) (c : Nat) (enc : Bool) (h : (postRecvPlain
       · cases enc
         · have h1 : c ≠ rx.max := by omega
           have h2 : ¬ c > rx.max := by omega
-          have : postRecvPlain rx c false = ({ rx with max := c, bitmap := 0xffff }, true) := by
+          have : postRecvPlain rx c false = ({ rx with max := c, bitmap := 0 }, true) := by
             simp [postRecvPlain, hs, h1, h2, hw]
           rw [this] at h; cases h
         · rw [C04.plain_old rx c hs hlt hw]
@@ -149,7 +149,7 @@ theorem plain_accepted (rx : RxState) (c : Nat) (enc : Bool) (h : (postRecvPlain
       · cases enc
         · have h1 : c ≠ rx.max := by omega
           have h2 : ¬ c > rx.max := by omega
-          have : postRecvPlain rx c false = ({ rx with max := c, bitmap := 0xffff }, true) := by
+          have : postRecvPlain rx c false = ({ rx with max := c, bitmap := 0 }, true) := by
             simp [postRecvPlain, hs, h1, h2, hw]
           rw [this]
           exact ⟨hs, Or.inl rfl⟩
